@@ -33,3 +33,14 @@ Print Assumptions C03_other_commands_keep_rule_order.
 Theorem C03_oracle_is_expanded_equality : forall a b, equiv a b = true <-> sem a = sem b.
 Proof. exact equiv_is_equal_semantics. Qed.
 Print Assumptions C03_oracle_is_expanded_equality.
+
+(* equalising the members of an address-group incrementally (one delete per member
+   the target does not have, then one set with the new members): for all member
+   lists the commands are accepted by the candidate configuration and the group
+   then holds exactly the target's members *)
+From NA Require Import Nsx.Proofs Panos.Members.
+Theorem C03_member_plan_converges :
+  forall v g old new, lookup g (v_grp v) = Some old -> NoDup old -> forallb (plain_addr_ok v) new = true ->
+  exists v' cur, run_ops v (member_plan g old new) = Some v' /\ lookup g (v_grp v') = Some cur /\ forall x, In x cur <-> In x new.
+Proof. exact member_plan_converges_proved. Qed.
+Print Assumptions C03_member_plan_converges.
